@@ -38,6 +38,8 @@ THEOREMS = [
     "C03_written",
     "C03_written_all",
     "C03_shared_write_refuted",
+    "C03_universe_keeps_mark",
+    "C03_claim_keeps_mark",
     "exec_refines",
     "plan_targets",
 ]
@@ -81,6 +83,44 @@ vol 1 2 3
 u 0 1 1
 nps 100
 """,
+    # cells that carry the not-truncated mark (u=-n) when they are read, and more than one universe to move them to
+    """tiny marked-universes problem (cell block)
+1 1 0.5 -1 u=5 imp:n=1
+2 1 0.5 -1 u=-6 imp:n=1 vol=2
+3 0 1 -2 u=-7 imp:n=1
+4 0 -3 fill=5 imp:n=1
+5 0 3 -4 fill=6 imp:n=1
+6 0 4 imp:n=0
+
+1 so 1
+2 so 2
+3 so 10
+4 so 20
+
+m1 1001.80c 1.0
+mode n
+nps 100
+""",
+    """tiny marked-universes problem (data block)
+1 1 0.5 -1
+2 1 0.5 -1
+3 0 1 -2
+4 0 -3
+5 0 3 -4
+6 0 4
+
+1 so 1
+2 so 2
+3 so 10
+4 so 20
+
+m1 1001.80c 1.0
+mode n
+imp:n 1 1 1 1 1 0
+u 5 -6 -7 3j
+fill 3j 5 6 j
+nps 100
+""",
 ]
 
 
@@ -111,7 +151,7 @@ ROTS = [
 
 KINDS = [
     "cellNumber", "surfNumber", "matNumber", "trNumber", "uniNumber", "material", "atomDensity", "massDensity",
-    "importance", "importance", "importanceAll", "volume", "delVolume", "lattice", "delLattice", "universe", "notTruncated",
+    "importance", "importance", "importanceAll", "volume", "delVolume", "lattice", "delLattice", "universe", "claim", "notTruncated",
     "fillUniverse", "fillTransform", "surfConstants", "location", "radius", "coordinates", "reflecting", "white",
     "surfTransform", "periodic", "fraction", "laws", "addThermal", "displacement", "rotation", "inDegrees", "mainToAux",
     "modeAdd", "modeRemove", "modeSet", "title",
@@ -189,7 +229,24 @@ def gen_edit(rng, p, kinds=None, hint=None, standalone=False):
         if k == "delLattice" and C:
             return [[k, pick(range(len(C)))]]
         if k == "universe" and C and U:
-            return [[k, pick(range(len(C))), rng.randrange(len(U))]]
+            # a move = a universe other than the one the cell is in (re-assigning the same one is drawn too, less often);
+            # cells that carry the not-truncated mark (read as u=-n, or marked earlier in the script) are preferred, and a
+            # cell in a universe may be marked first and moved second: the mark is a quantity of its own that the move
+            # does not edit (the opposite order is what the kind "notTruncated" draws)
+            marked = [i for i, c in enumerate(C) if c.not_truncated]
+            i = pick(marked) if marked and rng.random() < 0.5 else pick(range(len(C)))
+            other = [j for j, u in enumerate(U) if u is not C[i].universe]
+            j = rng.choice(other) if other and rng.random() < 0.85 else rng.randrange(len(U))
+            if not C[i].not_truncated and C[i].universe.number != 0 and rng.random() < 0.3:
+                return [["notTruncated", i, True], [k, i, j]]
+            return [[k, i, j]]
+        if k == "claim" and C and U:
+            # universe.py:Universe.claim with a list of cells (marked and unmarked ones, cells already in the universe too)
+            j = rng.randrange(len(U))
+            n = rng.randint(1, min(3, len(C)))
+            first = pick(range(len(C)))
+            cells = [first] + [i for i in rng.sample(range(len(C)), n) if i != first][: n - 1]
+            return [[k, j, cells]]
         if k == "notTruncated" and C:
             i = pick(range(len(C)))
             b = rng.random() < 0.6
@@ -641,6 +698,10 @@ def base_texts(chk, rng, n):
         feats = {"transforms", "periodic", "boundary", "universes", "complements", "thermal", "data_placement", "shortcuts", "progressions",
                  "plain_params"}
         gp = genprob.generate(rng, features=feats)
+        for c in gp["cells"]:
+            # cells marked as not truncated when they are read: u=-n on the cell card or a negative entry of the U input
+            if c["u"] is not None and rng.random() < 0.4:
+                c["u"] = -c["u"]
         style = "plain" if rng.random() < 0.6 else "random"
         out.append((genprob.render(gp, rng, 128, style), 128))
     return out
@@ -865,6 +926,11 @@ def exhaustive_cases(chk):
                 if es is None:
                     continue
                 out.append({"text": text, "limit": 128, "script": es})
+        # every cell moved to every universe of the file (the marks the cells were read with are part of the state)
+        with wholefile.Scratch() as sc:
+            p = wholefile.read_text(text, 128, sc)
+            moves = [(i, j) for i in range(len(p.cells)) for j in range(len(p.universes))]
+        out += [{"text": text, "limit": 128, "script": [["universe", i, j]]} for i, j in moves]
     # distinct only
     seen, uniq = set(), []
     for c in out:
